@@ -183,6 +183,14 @@ StatusOfCall(c) == [obsGen |-> Ints(c)[1], replicas |-> Ints(c)[2], ready |-> In
                     current |-> Ints(c)[4], updated |-> Ints(c)[5], collisions |-> Ints(c)[6],
                     curRev |-> c[7][1], updRev |-> c[7][2]]
 CreatesOK(calls)     == {k \in Idx(calls) : IsPodCreate(calls[k]) /\ OK(calls[k])}
+\* the current revision advances only in a reconcile that saw every pod of the set at the update revision and Ready
+CurAdvanceOK(sn, calls, k) ==
+  LET w == StatusOfCall(calls[k]) IN
+  (sn.set.status.curRev \in ListedNames(sn) /\ w.curRev # sn.set.status.curRev) =>
+        /\ sn.set.strat = "RollingUpdate"
+        /\ w.curRev = w.updRev
+        /\ \A p \in Parts(sn) : p.rev = w.updRev /\ RunReadyP(p) /\ ~p.term
+        /\ \A j \in 1..(k - 1) : ~IsPodCreate(calls[j])
 StatusWriteOK(sn, calls, k) ==
   LET w == StatusOfCall(calls[k]) IN
   /\ 0 <= w.ready /\ w.ready <= w.replicas
@@ -190,11 +198,7 @@ StatusWriteOK(sn, calls, k) ==
   /\ 0 <= w.updated /\ w.updated <= w.replicas
   /\ w.obsGen = sn.set.gen
   /\ w.obsGen >= sn.set.status.obsGen
-  /\ (sn.set.status.curRev \in ListedNames(sn) /\ w.curRev # sn.set.status.curRev) =>
-        /\ sn.set.strat = "RollingUpdate"
-        /\ w.curRev = w.updRev
-        /\ \A p \in Parts(sn) : p.rev = w.updRev /\ RunReadyP(p) /\ ~p.term
-        /\ \A j \in 1..(k - 1) : ~IsPodCreate(calls[j])
+  /\ CurAdvanceOK(sn, calls, k)
   \* the total counts exactly the pods that are part of the set (C10: nothing else is counted)
   /\ w.replicas = Cardinality(Parts(sn)) + Cardinality({j \in CreatesOK(calls) : j < k})
                    - Cardinality({j \in 1..(k - 1) : IsPodDelete(calls[j]) /\ OK(calls[j]) /\ IsDeadDelete(sn, calls, j)})
@@ -311,7 +315,10 @@ C03(sn, calls) == C03Raw(Eff(sn, calls), calls)
 C04(sn, calls) == C04Raw(Eff(sn, calls), calls)
 C05(sn, calls) == C05Raw(Eff(sn, calls), calls)
 C06(sn, calls) == C06Raw(Eff(sn, calls), calls)
-C07(sn, calls) == C07Raw(Eff(sn, calls), calls)
+\* "built from the current revision" (below the partition) has a meaning over time only if the current revision moves
+\* by C12's rule; so C07 includes that rule for every status write
+C07(sn, calls) == /\ C07Raw(Eff(sn, calls), calls)
+                  /\ \A k \in Idx(calls) : IsStatus(calls[k]) => CurAdvanceOK(Eff(sn, calls), calls, k)
 C10(sn, calls, res) == C10Raw(sn, calls, res)
 C11(sn, calls) == C11Raw(sn, calls)
 C12(sn, calls) == C12Raw(Eff(sn, calls), calls)
@@ -337,5 +344,6 @@ C09(sn, calls, res) ==
   /\ (\E k \in Idx(calls) : ~OK(calls[k]) /\ ~Benign(calls, k)) => res \in {"err", "died"}
   /\ res = "died" => \E f \in SeqToSet(sn.faults) : f.die          \* only an injected process death ends a reconcile that way
   \* what a failed or interrupted reconcile leaves behind breaks none of the safety rules
-  /\ C03(sn, calls) /\ C04(sn, calls) /\ C05(sn, calls) /\ C10(sn, calls, res) /\ C11(sn, calls) /\ C12(sn, calls) /\ C13(sn, calls, res)
+  /\ C03(sn, calls) /\ C04(sn, calls) /\ C05(sn, calls) /\ C07(sn, calls) /\ C10(sn, calls, res) /\ C11(sn, calls) /\ C12(sn, calls)
+  /\ C13(sn, calls, res)
 =======================================================================================
